@@ -19,7 +19,7 @@ import time
 from ..common import Rng, cz
 from .. import lang
 from ..lang import COQ_HEADER, clist, cval_of_py, py_of_arg, res_of_call
-from ..c08gen import LoopGen
+from ..c08gen import LoopGen, corpus
 
 MANIFEST = {
     'text': 'Gallina models of while/for unrolling, loop splitting, zip/enumerate elimination and any/all fusion exactly as '
@@ -461,11 +461,18 @@ def run(ck):
     cases, info = [], []
     rejected = 0
     t0 = time.time()
-    for idx in range(nprog):
-        fam = fams[idx % len(fams)]
+    fixed = corpus()
+    for idx in range(nprog + len(fixed)):
         rng = Rng(ck.seed, f'c08-{idx}')
-        g = LoopGen(rng, fam)
-        prog = g.program()
+        if idx < nprog:
+            fam = fams[idx % len(fams)]
+            g = LoopGen(rng, fam)
+            prog = g.program()
+        else:
+            # the fixed corpus (every seed): the generator object only draws the arguments
+            fam, prog = fixed[idx - nprog]
+            g = LoopGen(rng, fam)
+            g.features.add('corpus')
         modname = f'c08_prog_{idx:05d}'
         try:
             mod = prog.load(ck.dir / 'progs', modname)
